@@ -80,9 +80,11 @@ def h_jws(ctx):
     from joserfc import jws, jwt, rfc7797
     name = ctx.choose("alg", JWS_SUPPORTED + NEAR[:4] + NONSTR)
     form = ctx.choose("allow_list", LFORMS)
-    how = ctx.choose("given_as", ["algorithms", "registry"])
+    how = ctx.choose("given_as", ["algorithms", "registry", "plain-jws-registry", "plain-jws-registry-nonstrict"])
     op = ctx.choose("operation", ["sign", "verify"])
     path = ctx.choose("path", ["compact", "flattened", "general", "7797-compact", "7797-flattened", "jwt"])
+    if how.startswith("plain") and not path.startswith("7797"):
+        return Outcome("n/a", [], nontrivial=None)
     L = allow_list(form, name, JWS_SUPPORTED, JWS_REC)
     kind = jws_key_kind(name)
     jwk = scen.key(kind)
@@ -93,6 +95,9 @@ def h_jws(ctx):
             return {"algorithms": copy.copy(L)}
         if L is None:
             return {"registry": None}
+        if how.startswith("plain"):
+            # a plain RFC 7515 registry handed to the RFC 7797 entry points: its allow-list must still be the one that counts
+            return {"registry": jws.JWSRegistry(algorithms=copy.copy(L), strict_check_header=not how.endswith("nonstrict"))}
         cls = rfc7797.JWSRegistry if seven else jws.JWSRegistry
         return {"registry": cls(algorithms=copy.copy(L))}
     hdr = {"alg": name}
@@ -149,9 +154,9 @@ def h_jws(ctx):
     cls = "none" if name == "none" else ("non-string" if not isinstance(name, str) else ("unknown" if name not in JWS_SUPPORTED else name[:2] + "*"))
     if r.ok and not exp:
         vs.append(viol(f"JWS {op} succeeds with an algorithm the caller did not allow [{cls}, list {form}, {how}]", what))
-    elif not r.ok and exp:
+    elif not r.ok and exp and not how.startswith("plain"):
         vs.append(viol(f"JWS {op} fails with an allowed algorithm [{cls}, list {form}, {how}]", f"{what}: {r.exc!r}"))
-    elif not r.ok and isinstance(name, str) and not exp and name != "none" and not is_unsupported_error(r.exc):
+    elif not r.ok and isinstance(name, str) and not exp and name != "none" and not is_unsupported_error(r.exc) and not how.startswith("plain"):
         vs.append(viol(f"JWS {op}: a disallowed well-typed algorithm name is not reported as unsupported-algorithm [{cls}, {type(r.exc).__name__}]", f"{what}: {r.exc!r}"))
     return Outcome(f"{op}:{'ok' if r.ok else 'rej'}:{'allowed' if exp else 'not-allowed'}", vs, nontrivial=(name if isinstance(name, str) else repr(name), form, how, op, path))
 
